@@ -26,7 +26,7 @@ TCall ==
          x == Arg(ev.x)  y == Arg(ev.y)  z == Arg(ev.z)
          Post(g, pre) == IF g \in Regs THEN ev.s[g] ELSE pre
          res == [o |-> ev.o, c |-> ev.c, r |-> ev.r, X |-> Post(ev.x, x), Y |-> Post(ev.y, y), Z |-> Post(ev.z, z)]
-     IN /\ Pre(ev.op, x, y, z, ev.k)                     \* the driver stayed inside the quantifier
+     IN /\ Pre(ev.op, x, y, z, ev.k) /\ PreT(ty, ev.op, x, ev.k)   \* the driver stayed inside the quantifier
         /\ J(ty, ev.op, x, y, z, ev.k, ev.o, ev.c, ev.r, res.X, res.Y, res.Z)
         /\ Step(ev.op, ev.x, ev.y, ev.z, ev.k, res)
         /\ regs' = ev.s                                  \* registers the call does not name are untouched
